@@ -61,6 +61,8 @@ type LogWrap struct {
 	delay     time.Duration
 	hangNext  int
 	hang      time.Duration
+	panicNext int
+	onPanic   func()
 }
 
 func (l *LogWrap) Close() error { return l.real.Close() }
@@ -73,6 +75,19 @@ func (l *LogWrap) Append(p *packet.Publish) error {
 		l.mu.Unlock()
 		atomic.AddInt64(l.act, 1)
 		return errors.New("injected log append failure")
+	}
+	if l.panicNext > 0 {
+		// the failure mode of this write is a panic, not an error (a log that is being closed,
+		// a message it cannot encode): on the unchanged broker that ends the process
+		l.panicNext--
+		l.appends = append(l.appends, AppendRec{atomic.AddInt64(l.seq, 1), string(p.Topic), string(p.Payload), true})
+		f := l.onPanic
+		l.mu.Unlock()
+		atomic.AddInt64(l.act, 1)
+		if f != nil {
+			f()
+		}
+		panic("injected panic in the message log's Append")
 	}
 	delay := time.Duration(0)
 	if l.delayNext > 0 {
@@ -166,6 +181,14 @@ func (l *LogWrap) DelayNext(k int, d time.Duration) {
 func (l *LogWrap) HangNext(k int, d time.Duration) {
 	l.mu.Lock()
 	l.hangNext, l.hang = k, d
+	l.mu.Unlock()
+}
+
+// PanicNext makes the next k appends panic (before runs first); only for cases that run in a
+// child process.
+func (l *LogWrap) PanicNext(k int, before func()) {
+	l.mu.Lock()
+	l.panicNext, l.onPanic = k, before
 	l.mu.Unlock()
 }
 
